@@ -31,6 +31,13 @@
     * `impl_matches_solver` – `create_impl` hands out the DMRG implementation iff DMRG was asked;
     * `sequence_sound`, `digital_never_emulated` – from the addressed channel bases: only
       `{ground-rydberg}` and `{XY}` sequences are ever emulated, with the matching Hamiltonian.
+    * `run_kind_constant`, `accept_kind_constant` – with the Hamiltonian kind recorded per time
+      step (`acceptRun`/`acceptSteps`): every step of a run that returns results uses the same,
+      right Hamiltonian, for every pattern of interaction-matrix changes (SLM mask ending inside
+      the sequence, where emu-mps rebuilds its MPO); `runTable_sound` – the table with the extra
+      "interaction matrix changes mid-run" axis (1152 cells); `run_depends_only_on_cell`;
+      `run_kind_defaultRydberg_counterexample` – false when the rebuild relies on a default
+      Rydberg type (seeded change r11-C04).
     * `sv_xy_asFound_counterexample`, `impl_solver_asFound_counterexample` – on the tree before
       the two fixes both statements fail (D8: emu-sv emulated XY with the Rydberg Hamiltonian;
       D9: DMRG + Lindblad operators got the TDVP quantum-jump implementation).
@@ -200,6 +207,83 @@ theorem digital_never_emulated (fixed : Bool) (b : Backend) (bases : List ChanBa
   intro h
   rcases (sequence_sound fixed b bases leak kinds s k h).1 with ⟨rfl, _⟩ | ⟨rfl, _⟩ <;> simp at hd
 
+/-! ### The Hamiltonian stays the same over the whole run -/
+
+/-- Every time step of a run that returns results uses the *same* Hamiltonian, the one Pulser
+defines for the sequence's interaction type and level count — for every `SequenceData`, every
+number of steps and every pattern of interaction-matrix changes (SLM mask ending mid-run). -/
+theorem run_kind_constant (b : Backend) (d : Seq) (s : Solver) (cn : Bool) (changes : List Bool)
+    (ks : List HamKind) (h : acceptRun .passesType .repaired b d s cn changes = .emulate ks) :
+    ∃ k, hamKind d.ham d.dim = some k ∧ implements b s k = true ∧
+      ks = List.replicate (changes.length + 1) k := by
+  unfold acceptRun at h
+  cases ha : acceptSeq .repaired b d s cn with
+  | raise e => rw [ha] at h; cases h
+  | emulate k =>
+    rw [ha] at h
+    obtain ⟨h1, h2⟩ := acceptSeq_sound b d s cn k ha
+    refine ⟨k, h1, h2, ?_⟩
+    cases b with
+    | sv => cases h; rfl
+    | mps =>
+      simp only [rebuiltKind, stepKinds_same] at h
+      cases h; rfl
+
+/-- The same through `PulserData.__init__` (`accept` with per-step kinds). -/
+theorem accept_kind_constant (b : Backend) (it : IntType) (dim : Nat) (kinds : List NoiseKind)
+    (s : Solver) (changes : List Bool) (ks : List HamKind)
+    (h : acceptSteps .passesType b it dim kinds s changes = .emulate ks) :
+    ∃ k, pulserHam it dim = some k ∧ implements b s k = true ∧
+      ks = List.replicate (changes.length + 1) k := by
+  unfold acceptSteps at h
+  cases it with
+  | other => simp [detectHam] at h
+  | ising =>
+    simp only [detectHam] at h
+    cases hl : allLindblad dim kinds with
+    | err e => rw [hl] at h; cases h
+    | ok n => rw [hl] at h; exact run_kind_constant _ _ _ _ _ _ h
+  | xy =>
+    simp only [detectHam] at h
+    cases hl : allLindblad dim kinds with
+    | err e => rw [hl] at h; cases h
+    | ok n => rw [hl] at h; exact run_kind_constant _ _ _ _ _ _ h
+
+/-- The feature table with the "interaction matrix changes mid-run" axis (2 × 576 cells, checked
+one by one by the kernel): a cell that emulates uses exactly one Hamiltonian, the right one. -/
+theorem runTable_sound (c : Cell) (slm : Bool) (ks : List HamKind)
+    (h : runTable .passesType c slm = .emulate ks) :
+    ∃ k, ks = [k] ∧ hamKindC c.ham c.dim = some k ∧ implements c.b c.s k = true := by
+  unfold runTable at h
+  cases ht : table c with
+  | raise e => rw [ht] at h; cases h
+  | emulate k =>
+    rw [ht] at h
+    simp only [rebuiltKindC, ne_eq, not_true_eq_false, and_false, if_false] at h
+    cases h
+    exact ⟨k, rfl, table_sound c k ht⟩
+
+/-- Only the cell and "does the interaction matrix change at all" matter for the sequence of
+distinct Hamiltonians of a run. -/
+theorem run_depends_only_on_cell (rb : Rebuild) (b b' : Backend) (d d' : Seq) (s s' : Solver)
+    (cn cn' : Bool) (ch ch' : List Bool)
+    (h : classify b d s cn = classify b' d' s' cn') (hc : ch.any id = ch'.any id) :
+    collapseRun (acceptRun rb .repaired b d s cn ch) = collapseRun (acceptRun rb .repaired b' d' s' cn' ch') := by
+  rw [acceptRun_table, acceptRun_table, h, hc]
+
+/-- Seeded variant (`make_H` with a default Rydberg type, `timestep_complete` not passing the
+type): an XY sequence whose SLM mask ends after the first step is emulated with the XY
+Hamiltonian first and the Rydberg one afterwards. -/
+theorem run_kind_defaultRydberg_counterexample :
+    ¬ (∀ (b : Backend) (d : Seq) (s : Solver) (cn : Bool) (changes : List Bool) (ks : List HamKind),
+        acceptRun .defaultRydberg .repaired b d s cn changes = .emulate ks →
+        ∀ k ∈ ks, hamKind d.ham d.dim = some k) := by
+  intro h
+  have := h .mps { ham := .xy, dim := 2, opDims := [], nAtoms := 3, nGood := 3 } .tdvp false [true, false]
+    [.xy2, .rydberg2, .rydberg2] (by decide) .rydberg2 (by simp)
+  revert this
+  decide
+
 /-! ### The tree before the two fixes (kernel-checked counterexamples) -/
 
 /-- D8: emu-sv emulated an XY sequence with the 2-level Rydberg Hamiltonian. -/
@@ -237,5 +321,8 @@ example : acceptSeq .repaired .mps { ham := .xy, dim := 2, opDims := [], nAtoms 
 example : acceptSequence .repaired false .mps [.digital] false [] .tdvp = some (.raise .value) := by decide
 example : acceptSequence .repaired false .mps [.xy] true [.leakage] .tdvp = some (.emulate .xy3) := by decide
 example : createImpl .repaired .tdvp 2 false 2 = .ok .noisy := by decide
+example : acceptRun .passesType .repaired .mps { ham := .xy, dim := 2, opDims := [], nAtoms := 3, nGood := 3 }
+    .tdvp false [true, false] = .emulate [.xy2, .xy2, .xy2] := by decide
+example : acceptSteps .passesType .mps .xy 3 [.leakage] .tdvp [false, true] = .emulate [.xy3, .xy3, .xy3] := by decide
 
 end EmuVerif.Props.C04
